@@ -202,6 +202,10 @@ def declare(reg, eng):
                  ensures=[("C09", "effect_count('tokenfile.delete') == 1"),
                           ("C09", "effect_with_arg('tokenfile.delete', 0, self)"),
                           ("C09", "implies(effect('process.wait'), effect_before('process.wait', 'tokenfile.delete'))")],
+                 # (C08) the holding of another scheduler is given back only after the watcher held the job lock of that job while it
+                 # looked for the process: a job that is still starting (lock held, pid file not written yet) is not mistaken for a
+                 # finished one
+                 effect_guards={"tokenfile.delete": [("C08", "effect_here('iplock.acquire') and at_effect('iplock.acquire', effect_arg('iplock.acquire', 0).acquired)")]},
                  raises={"ValueError": {"when": []}, "FileNotFoundError": {"when": []}},
                  interference={"shared": ["$fs_kind", "$fs_text", "$fs_target"], "rely": [], "guarantee": []},
                  modifies=None)
